@@ -117,6 +117,7 @@ def ties(ctx):
     first = ctx.seed % stride
     out.append(_tie(ctx, 'dtx-silence-grid', ['scen', 'silence-grid', str(first), '648', str(stride), '0', 'tie']))
     out.append(_tie(ctx, 'dtx-regime-switch', ['scen', 'regime-switch', '0', '16', '1', '0', 'tie']))
+    out.append(_tie(ctx, 'dtx-budget-boundary', ['scen', 'budget-boundary', '0', '400', '1', '0', 'tie']))
     out.append(_tie(ctx, 'dtx-silk-bust', ['scen', 'silk-bust', '0', '1', '1', '0', 'tie']))
     # the SILK VAD: real silk_VAD_GetSA_Q8_c (silk/VAD.c #included) vs OpusModel.SilkVad, every state field and output
     out.append(_tie(ctx, 'silk-vad', ['tie', s, '250' if ctx.quick else '4000'], harness='c20_vad'))
@@ -171,7 +172,7 @@ def classify(ctx, tie, mm):
         acts = fi.get('acts', '-').split(',')
         if impl.split(' ')[0] in ('INTERNAL_ERROR', 'BAD_ARG', 'BUFFER_TOO_SMALL') and not model.startswith(impl.split(' ')[0]):
             why = 'opus_encode returned %s where the skeleton expects a packet' % impl.split(' ')[0]
-        elif tiny and not use_dtx and not low_budget and fm.get('len') == 'N':
+        elif tiny and not use_dtx and not low_budget and (fm.get('len') == 'N' or model.startswith('BAD-ORACLE')):
             why = 'dtx_off_no_tiny: DTX disabled, budget outside the low-budget class, yet the call returned %s byte(s)' % fi['len']
         elif tiny and use_dtx and fi.get('indtx') == '0' and not low_budget:
             why = 'in_dtx_on_dtx_packets: the call returned a %s-byte DTX packet but OPUS_GET_IN_DTX answers 0' % fi['len']
@@ -235,6 +236,8 @@ def search(ctx):
     _run_search(h, ['scen', 'nan-pattern', '0', '11', '1', '0'], env, wit, stats)
     _run_search(h, ['scen', 'silk-bust', '0', '1', '1', '0'], env, wit, stats)
     _run_search(h, ['scen', 'low-budget-gray', '0', '1', '1', '0'], env, wit, stats)
+    # the low-budget guard at its boundaries (bitrate = 24*frame_rate -1/0/+1, buffer 2/3/4 bytes, long-frame floors), all durations
+    _run_search(h, ['scen', 'budget-boundary', '0', '400', '1', '0'], env, wit, stats)
     # 2. digital silence at complexity >= 7 / Fs >= 16 kHz must reach DTX within the stated window (real detector)
     stride = 6 if q else 1
     _run_search(h, ['scen', 'silence-grid', str(ctx.seed % stride), '648', str(stride), '0'], env, wit, stats)
